@@ -1,4 +1,5 @@
 import IceProofs.AgentC07Inv
+import IceProofs.AgentInboundData
 /-!
 # C07 data plane: `bestBy`, `Conn.Write`, `Conn.WriteToPair`, inbound payloads, `Conn.Read`
 
@@ -250,14 +251,6 @@ def recvBump (a : Agent) (len : Nat) : List Pair :=
     | none => a.checklist
   else a.checklist
 
-theorem inboundData_reject (a : Agent) (now : Nat) (l : Cand) (src len : Nat) (h : accepts a l src = false) :
-    a.inboundData now l src len = (a, []) := by
-  unfold accepts cacheHit at h
-  simp only [Bool.or_eq_false_iff, Option.isSome_eq_false_iff, Option.isNone_iff_eq_none] at h
-  unfold Agent.inboundData
-  simp only [h.1, h.2]
-  rfl
-
 /-- what an accepted payload does -/
 structure Recvd (a b : Agent) (l : Cand) (src len : Nat) : Prop where
   rx : b.rx = a.rx ++ [len]
@@ -273,52 +266,92 @@ structure Recvd (a b : Agent) (l : Cand) (src len : Nat) : Prop where
   caches : b.caches = a.caches ∨
     ∃ r, a.findRemote l.net src = some r ∧ b.caches = a.caches ++ [(l.uid, src, r.uid)]
 
-theorem inboundData_accept (a : Agent) (now : Nat) (l : Cand) (src len : Nat) (h : accepts a l src = true) :
-    (a.inboundData now l src len).2 = [] ∧ Recvd a (a.inboundData now l src len).1 l src len := by
+/-- what a payload from a known source that does NOT fit into the receive buffer does: the source check has
+refreshed the remote candidate's liveness and (first time) cached the source; nothing is queued, no counter moves -/
+structure Dropped (a b : Agent) (l : Cand) (src : Nat) : Prop where
+  rx : b.rx = a.rx
+  sent : b.connBytesSent = a.connBytesSent
+  recv : b.connBytesRecv = a.connBytesRecv
+  npid : b.nextPairID = a.nextPairID
+  sel : b.selected = a.selected
+  closed : b.closed = a.closed
+  nuid : b.nextUid = a.nextUid
+  locals : b.locals = a.locals
+  remotes : b.remotes.map ckey = a.remotes.map ckey
+  checklist : b.checklist = a.checklist
+  caches : b.caches = a.caches ∨
+    ∃ r, a.findRemote l.net src = some r ∧ b.caches = a.caches ++ [(l.uid, src, r.uid)]
+
+open IceProofs.InboundData in
+theorem validated_of_accepts (a : Agent) (now : Nat) (l : Cand) (src : Nat) (h : accepts a l src = true) :
+    ∃ b, validated a now l src = some b ∧ Dropped a b l src := by
   unfold accepts cacheHit at h
-  unfold Agent.inboundData
-  extract_lets cached
-  have hcd : cached = a.caches.find? (fun x => match x with | (lu, s, _) => lu == l.uid && s == src) := rfl
-  clear_value cached
-  rw [← hcd] at h
-  split
-  rename_i a1 ok heq
-  have key : ok = true ∧ a1.rx = a.rx ∧ a1.connBytesSent = a.connBytesSent ∧ a1.connBytesRecv = a.connBytesRecv ∧
-      a1.nextPairID = a.nextPairID ∧ a1.selected = a.selected ∧ a1.closed = a.closed ∧ a1.nextUid = a.nextUid ∧
-      a1.locals = a.locals ∧ a1.remotes.map ckey = a.remotes.map ckey ∧ a1.checklist = a.checklist ∧
-      (a1.caches = a.caches ∨ ∃ r, a.findRemote l.net src = some r ∧ a1.caches = a.caches ++ [(l.uid, src, r.uid)]) := by
-    split at heq
-    · cases heq
-      exact ⟨rfl, rfl, rfl, rfl, rfl, rfl, rfl, rfl, rfl, map_ckey_updCand _ _ _ (fun _ => rfl), rfl, Or.inl rfl⟩
-    · split at heq
-      · rename_i r hr
-        cases heq
-        exact ⟨rfl, rfl, rfl, rfl, rfl, rfl, rfl, rfl, rfl, map_ckey_updCand _ _ _ (fun _ => rfl), rfl,
-          Or.inr ⟨r, hr, rfl⟩⟩
-      · rename_i hr
-        rw [hr] at h
-        simp at h
-  obtain ⟨k0, k1, k2, k3, k4, k5, k6, k7, k8, k9, k10, k11⟩ := key
-  subst k0
-  simp only [Bool.not_true, Bool.false_eq_true, if_false]
-  by_cases hl : len > 0
-  · cases hs : a1.selected with
+  unfold validated
+  cases hc : a.caches.find? (fun (lu, s, _) => lu == l.uid && s == src) with
+  | some e =>
+    obtain ⟨lu, s, ru⟩ := e
+    exact ⟨_, rfl, ⟨rfl, rfl, rfl, rfl, rfl, rfl, rfl, rfl, map_ckey_updCand _ _ _ (fun _ => rfl), rfl, Or.inl rfl⟩⟩
+  | none =>
+    cases hr : a.findRemote l.net src with
+    | some r =>
+      exact ⟨_, rfl, ⟨rfl, rfl, rfl, rfl, rfl, rfl, rfl, rfl, map_ckey_updCand _ _ _ (fun _ => rfl), rfl,
+        Or.inr ⟨r, hr, rfl⟩⟩⟩
     | none =>
-      simp only [hl, if_true]
-      refine ⟨trivial, by simp [k1], k2, k3, k4, hs.symm.trans k5, k6, k7, k8, k9, ?_, k11⟩
-      unfold recvBump
-      rw [← k5, hs]
-      simp [hl, k10]
-    | some id =>
-      simp only [hl, if_true]
-      refine ⟨trivial, by simp [Agent.modPair, k1], k2, k3, k4, hs.symm.trans k5, k6, k7, k8, k9, ?_, k11⟩
-      unfold recvBump
-      rw [← k5, hs]
-      simp [hl, k10, Agent.modPair]
-  · simp only [hl, if_false]
-    refine ⟨trivial, by simp [k1], k2, k3, k4, k5, k6, k7, k8, k9, ?_, k11⟩
-    unfold recvBump
-    simp [hl, k10]
+      have hc' : a.caches.find? (fun x => match x with | (lu, s, _) => lu == l.uid && s == src) = none := hc
+      rw [hc', hr] at h
+      simp at h
+
+open IceProofs.InboundData in
+theorem validated_none (a : Agent) (now : Nat) (l : Cand) (src : Nat) (h : accepts a l src = false) :
+    validated a now l src = none := by
+  unfold accepts cacheHit at h
+  simp only [Bool.or_eq_false_iff, Option.isSome_eq_false_iff, Option.isNone_iff_eq_none] at h
+  unfold validated
+  have hc : a.caches.find? (fun (lu, s, _) => lu == l.uid && s == src) = none := h.1
+  rw [hc, h.2]
+
+theorem inboundData_reject (a : Agent) (now : Nat) (l : Cand) (src len : Nat) (h : accepts a l src = false) :
+    a.inboundData now l src len = (a, []) := by
+  rw [IceProofs.InboundData.inboundData_eq, validated_none a now l src h]
+
+/-- the payload fits: queued and credited -/
+theorem inboundData_accept (a : Agent) (now : Nat) (l : Cand) (src len : Nat) (h : accepts a l src = true)
+    (hf : rxFits a.rx len = true) :
+    (a.inboundData now l src len).2 = [] ∧ Recvd a (a.inboundData now l src len).1 l src len := by
+  obtain ⟨b, hv, d⟩ := validated_of_accepts a now l src h
+  rw [IceProofs.InboundData.inboundData_eq, hv]
+  simp only [d.rx, hf, if_true]
+  refine ⟨trivial, ?_⟩
+  have hq : (b.enqueue len).checklist = recvBump a len := by
+    unfold Agent.enqueue recvBump
+    simp only
+    rw [← d.sel, ← d.checklist]
+    by_cases hl : len > 0
+    · simp only [hl, if_true]
+      cases hs : b.selected <;> simp [Agent.modPair]
+    · simp only [hl, if_false]
+  have hrest : (b.enqueue len).connBytesSent = b.connBytesSent ∧ (b.enqueue len).connBytesRecv = b.connBytesRecv ∧
+      (b.enqueue len).nextPairID = b.nextPairID ∧ (b.enqueue len).selected = b.selected ∧
+      (b.enqueue len).closed = b.closed ∧ (b.enqueue len).nextUid = b.nextUid ∧ (b.enqueue len).locals = b.locals ∧
+      (b.enqueue len).remotes = b.remotes ∧ (b.enqueue len).caches = b.caches := by
+    unfold Agent.enqueue
+    simp only
+    split
+    · split <;> exact ⟨rfl, rfl, rfl, rfl, rfl, rfl, rfl, rfl, rfl⟩
+    · exact ⟨rfl, rfl, rfl, rfl, rfl, rfl, rfl, rfl, rfl⟩
+  obtain ⟨e1, e2, e3, e4, e5, e6, e7, e8, e9⟩ := hrest
+  exact ⟨by rw [IceProofs.InboundData.enqueue_rx, d.rx], e1.trans d.sent, e2.trans d.recv, e3.trans d.npid,
+    e4.trans d.sel, e5.trans d.closed, e6.trans d.nuid, e7.trans d.locals, by rw [e8]; exact d.remotes, hq,
+    by rw [e9]; exact d.caches⟩
+
+/-- the payload does not fit (`packetio.ErrFull`): dropped -/
+theorem inboundData_full (a : Agent) (now : Nat) (l : Cand) (src len : Nat) (h : accepts a l src = true)
+    (hf : rxFits a.rx len = false) :
+    (a.inboundData now l src len).2 = [] ∧ Dropped a (a.inboundData now l src len).1 l src := by
+  obtain ⟨b, hv, d⟩ := validated_of_accepts a now l src h
+  rw [IceProofs.InboundData.inboundData_eq, hv]
+  simp only [d.rx, hf, Bool.false_eq_true, if_false]
+  exact ⟨trivial, d⟩
 
 theorem step_inboundData_drop (a : Agent) (now la src len : Nat) (stun : Bool)
     (h : a.closed = true ∨ a.started = false ∨ stun = true ∨ a.localByAddr la = none) :
